@@ -273,7 +273,7 @@ fn collect_field<'a>(
                     FieldFuture::Value(field_value) => field_value,
                     FieldFuture::Future(future) => future
                         .await
-                        .map_err(|err| err.into_server_error(field.pos))?,
+                        .map_err(|err| ctx_field.set_error_path(err.into_server_error(field.pos)))?,
                 };
 
                 let value =
